@@ -2,6 +2,7 @@
 of asinh/acosh/atanh/log1p, R3 norms (square-and-sign, ratios <= 1), R4 reductions / element-wise helpers as loop-body
 transformers, R5 delay-line push / roll effects, DIV0 integer divisors."""
 import json, os, re
+import re
 import sympy as sp
 import symx, alg, looptx, consts, llir, irx, effects, path
 from symx import Ptr, Unsupported, TOP
@@ -52,8 +53,8 @@ def run(ctx):
                        'log1p compared with the defining logarithmic forms modulo the square-root relations, norms by squaring; '
                        'reductions and element-wise helpers as one-iteration loop transformers; block moves by their arguments')
     rep.trusted += ['lib/symx.py, lib/alg.py, lib/looptx.py', 'sympy polynomial remainder for square-root relations']
-    rep.assumptions += ['IEEE operations read as exact real operations: accuracy in ulps, the asymptotic branches (log(a)+ln2, return x) and the '
-                        'expm1 minimax coefficients are NOT decided', 'source/destination arrays do not overlap unless the helper is a shift']
+    rep.assumptions += ['IEEE operations read as exact real operations: accuracy in ulps of the rounded evaluation is NOT decided (R2b / R2c bound the '
+                        'truncation error of the approximating branches at the ends of their intervals resp. on a grid)', 'source/destination arrays do not overlap unless the helper is a shift']
     res, table = consts.check(ctx.scr, ctx.cfg('all', 8))
     for name, ok, lit, closed, detail in res:
         if name in ('A_PI', 'A_PI_2', 'A_LN2', 'A_RAD2DEG', 'A_DEG2RAD'):
@@ -61,6 +62,7 @@ def run(ctx):
     aliases(ctx)
     atan2(ctx, table)
     invhyp(ctx, table)
+    expm1_rule(ctx, table)
     norms(ctx, table)
     reductions(ctx, table)
     shifts(ctx, table)
@@ -72,6 +74,8 @@ def run(ctx):
     rep.floor('CFG-1a', 4 * 50)
     rep.floor('R1', 6)
     rep.floor('R2', 8)
+    rep.floor('R2b', 3)
+    rep.floor('R2c', 1)
     rep.floor('R3', 4)
     rep.floor('R4', 14)
     rep.floor('R5', 6)
@@ -200,13 +204,17 @@ def invhyp(ctx, table):
             continue
         nexact = 0
         probs = []
+        approx = []
         for lf in lv:
             r = sp.sympify(lf.ret) if lf.ret is not None and lf.ret is not TOP else None
             if r is None:
                 continue
             logs = list(r.atoms(sp.log))
             if len(logs) != 1 or r.has(sp.log(2)) or any(table.get(k) == sp.log(2) and False for k in ()):
-                continue   # asymptotic / trivial branch
+                # asymptotic / trivial branch: decided by rule R2b below
+                if name != 'a_real_log1p':
+                    approx.append(lf)
+                continue
             L = logs[0]
             coef = sp.simplify(r / L)
             if name == 'a_real_log1p':
@@ -246,7 +254,225 @@ def invhyp(ctx, table):
         else:
             rep.ok('R2', name, '%d non-asymptotic branches equal the defining logarithmic form (modulo sqrt relations), sign by symmetry' % nexact, loc=loc,
                    sample={'fn': name, 'branches': nexact, 'paths': len(lv)})
-            rep.ok('R2', name + ':paths', '%d paths analysed; asymptotic/tiny branches are not decided' % len(lv), loc=loc)
+            rep.ok('R2', name + ':paths', '%d paths analysed; the %d asymptotic / tiny / special-value branches are decided by R2b' % (len(lv), len(approx)), loc=loc)
+        if name != 'a_real_log1p':
+            approx_branches(rep, name, approx, x, loc)
+
+
+def expm1_rule(ctx, table):
+    """R2c: a_real_expm1.  Outside [-1/2, 1/2] the value is exp(x) - 1 exactly; inside it is the rational form 2r/(Q(x^2) - r), r = x P(x^2),
+    with the coefficient tables read from the unit's constant initialisers as exact binary rationals.  The extracted closed form is compared
+    with expm1 on a grid of 513 points of [-1/2, 1/2] (both ends included) in 60-digit arithmetic: a relative error above 4 eps anywhere on
+    the grid - a mistyped coefficient, a lost factor 2, a swapped table - is a violation.  (A grid, not a bound over the whole interval: the
+    error curve of a degree (2,3) rational approximation has at most a handful of extrema.)"""
+    import struct
+    import mpmath as mp
+    rep = ctx.rep
+    name = 'a_real_expm1'
+    fn = ctx.fn('math', name)
+    if fn is None:
+        rep.unk('R2c', name, 'anchor vanished')
+        return
+    loc = fn.loc(fn.entry.instrs[0])
+    x = sp.Symbol('x', real=True)
+    try:
+        dom = RDom(table)
+        dom.syms['x'] = x
+        lv = symx.Interp(dom, lookup_in([fn.module])).run(fn, [x])
+    except Unsupported as e:
+        rep.unk('R2c', name, str(e), loc=loc)
+        return
+    # constant tables of the unit: @name = constant [n x double] [double 0x..., double 1.0e+00 ...]
+    vals = {}
+    for g, text in fn.module.globals.items():
+        m_ = re.search(r'\[(\d+) x double\] \[(.*?)\]', text)
+        if not m_:
+            continue
+        for k, item in enumerate(m_.group(2).split(',')):
+            tok = item.strip().split()[-1]
+            try:
+                if tok.startswith('0x'):
+                    v = struct.unpack('>d', bytes.fromhex(tok[2:].rjust(16, '0')))[0]
+                else:
+                    v = float(tok)
+            except Exception:
+                continue
+            vals['@%s[%d]' % (g, 8 * k)] = sp.Rational(*float(v).as_integer_ratio())
+    mp.mp.dps = 60
+    EPS = mp.mpf(2) ** -52
+    probs, n, nb = [], 0, 0
+    for lf in lv:
+        if lf.ret is None or lf.ret is TOP:
+            continue
+        r = sp.sympify(lf.ret)
+        sub = {sy: vals[str(sy)] for sy in r.free_symbols if str(sy) in vals}
+        r = r.subs(sub)
+        if r.free_symbols - {x}:
+            probs.append('the branch value depends on %s' % sorted(map(str, r.free_symbols - {x})))
+            continue
+        txt = str(lf.pc)
+        inner = any(isinstance(c, alg.BoolOp) and c.op == 'and' for c in lf.pc)
+        outer = any(isinstance(c, alg.BoolOp) and c.op == 'or' for c in lf.pc)
+        if r == x and not inner and not outer:
+            continue           # the NaN path hands its argument back
+        nb += 1
+        if outer:
+            if not alg.is_zero(sp.simplify(r - (sp.exp(x) - 1))):
+                probs.append('outside [-1/2, 1/2] the value is %s, expected exp(x) - 1' % r)
+            continue
+        if not inner:
+            continue
+        f = sp.lambdify(x, r, 'mpmath')
+        worst = (mp.mpf(0), None)
+        for k in range(-256, 257):
+            xv = mp.mpf(k) / 512
+            if k == 0:
+                continue
+            n += 1
+            try:
+                gv = f(xv)
+            except Exception:
+                probs.append('the rational form cannot be evaluated at x = %s' % mp.nstr(xv, 6))
+                break
+            wv = mp.expm1(xv)
+            e = abs(gv - wv) / abs(wv)
+            if e > worst[0]:
+                worst = (e, xv)
+        if worst[0] > 4 * EPS:
+            probs.append('at x = %s the rational form differs from expm1 by %s relative (4 eps = %s)' % (mp.nstr(worst[1], 6), mp.nstr(worst[0], 3), mp.nstr(4 * EPS, 3)))
+    if probs:
+        rep.bad('R2c', name, '; '.join(sorted(set(probs))[:2])[:500], loc=loc, key='a_real_expm1: approximation')
+    elif n == 0:
+        rep.unk('R2c', name, 'the rational branch was not found (%d branches)' % nb, loc=loc)
+    else:
+        rep.ok('R2c', name, 'exp(x) - 1 outside [-1/2, 1/2]; inside, the rational form with the unit\'s coefficient tables agrees with expm1 to 4 eps on a 512-point grid', loc=loc,
+               sample={'fn': name, 'grid': n})
+
+
+def approx_branches(rep, name, leaves, x, loc):
+    """R2b: the branches that do not use the defining logarithm - log(a) + ln 2 for huge arguments, x itself for tiny ones, the special
+    values at the ends of the domain.  For each such path the interval of |x| it covers is read from its comparisons with the (exact binary)
+    thresholds; the branch value, a closed form in x, is compared with the function at both ends of that interval and at points in between,
+    in 60-digit arithmetic: the truncation error of an asymptotic / Taylor branch is monotone in |x|, so the ends carry its maximum.  Decides
+    that the thresholds and the approximations fit each other (a branch used too early, a dropped ln 2, a wrong special value)."""
+    import mpmath as mp
+    mp.mp.dps = 60
+    exact = {'a_real_asinh': mp.asinh, 'a_real_acosh': mp.acosh, 'a_real_atanh': mp.atanh}[name]
+    EPS = mp.mpf(2) ** -52
+    probs, n = [], 0
+    for lf in leaves:
+        r = sp.sympify(lf.ret)
+        lo, hi, lo_open, hi_open = mp.mpf(0) if name != 'a_real_acosh' else -mp.inf, mp.inf, False, False
+        sign = 0
+        point = None
+        excluded = []
+        ok_pc = True
+        for c in lf.pc:
+            if not isinstance(c, alg.Cond):
+                ok_pc = False
+                break
+            a_, b_ = sp.sympify(c.a), sp.sympify(c.b)
+            rel = c.rel()
+            if b_.has(x) and not a_.has(x):
+                a_, b_, rel = b_, a_, {'<': '>', '<=': '>=', '>': '<', '>=': '<='}.get(rel, rel)
+            if not b_.is_number:
+                ok_pc = False
+                break
+            bv = mp.mpf(sp.Float(b_, 60).num) if not b_.is_Rational else mp.mpf(int(b_.p)) / mp.mpf(int(b_.q))
+            key = a_
+            if key == x and name != 'a_real_acosh' and bv == 0:
+                if rel in ('<',):
+                    sign = -1
+                elif rel in ('>=', '>'):
+                    sign = sign or 1
+                continue
+            if key not in (sp.Abs(x), x):
+                ok_pc = False
+                break
+            if rel == '>':
+                if bv >= lo:
+                    lo, lo_open = bv, True
+            elif rel == '>=':
+                if bv > lo:
+                    lo, lo_open = bv, False
+            elif rel == '<':
+                if bv <= hi:
+                    hi, hi_open = bv, True
+            elif rel == '<=':
+                if bv < hi:
+                    hi, hi_open = bv, False
+            elif rel == '==':
+                point = bv
+            elif rel == '!=':
+                excluded.append(bv)
+        for bv in excluded:
+            if bv == hi:
+                hi_open = True
+            if bv == lo:
+                lo_open = True
+        if not ok_pc:
+            probs.append('path %s is not a set of comparisons of x with constants' % (str(lf.pc)[:120],))
+            continue
+        if point is not None:
+            pts = [point]
+        else:
+            if lo > hi:
+                continue
+            a0 = lo * (1 + mp.mpf(10) ** -25) + (mp.mpf(10) ** -320 if lo == 0 else 0) if lo_open else lo
+            if hi == mp.inf:
+                base = a0 if a0 > 0 else mp.mpf(1)
+                pts = [a0, base * 4, base * 1000, base ** 2 if base > 1 else base * 10 ** 6, mp.mpf(10) ** 300]
+            else:
+                a1 = hi * (1 - mp.mpf(10) ** -25) if hi_open else hi
+                if lo == -mp.inf:
+                    pts = [a1, a1 - 1, a1 - 1000]
+                else:
+                    mid = mp.sqrt(a0 * a1) if a0 > 0 else a1 / 1000
+                    pts = [a0, mid, (a0 + a1) / 2, a1]
+        signs = [sign] if sign else ([1, -1] if name != 'a_real_acosh' else [1])
+        for sg in signs:
+            for pv in pts:
+                xv = pv * sg if name != 'a_real_acosh' else pv
+                n += 1
+                try:
+                    got = r.subs(x, sp.Float(str(xv), 60)) if not r.is_number else r
+                    if got.has(sp.nan) or got is sp.nan:
+                        gv = 'nan'
+                    elif got in (sp.oo, -sp.oo):
+                        gv = mp.inf if got == sp.oo else -mp.inf
+                    else:
+                        gv = mp.mpf(str(sp.N(got, 60)))
+                except Exception as e:
+                    probs.append('branch value %s cannot be evaluated at x = %s' % (r, mp.nstr(xv, 8)))
+                    continue
+                try:
+                    wv = exact(xv)
+                    if isinstance(wv, mp.mpc) and wv.imag != 0:
+                        wv = 'nan'
+                    elif isinstance(wv, mp.mpc):
+                        wv = wv.real
+                except Exception:
+                    wv = 'nan'
+                if wv == 'nan' or gv == 'nan':
+                    if wv != gv:
+                        probs.append('at x = %s the branch gives %s, the function is %s' % (mp.nstr(xv, 8), gv, wv))
+                    continue
+                if mp.isinf(wv) or mp.isinf(gv):
+                    if wv != gv:
+                        probs.append('at x = %s the branch gives %s, the function is %s' % (mp.nstr(xv, 8), gv, wv))
+                    continue
+                err = abs(gv - wv)
+                tol = 4 * EPS * max(abs(wv), mp.mpf(10) ** -300)
+                if err > tol:
+                    probs.append('at x = %s (an end of the interval the branch covers) the branch value %s differs from the function by %s relative' % (
+                        mp.nstr(xv, 8), str(r)[:60], mp.nstr(err / max(abs(wv), mp.mpf(10) ** -300), 3)))
+    if probs:
+        rep.bad('R2b', name, '; '.join(sorted(set(probs))[:2])[:600], loc=loc, key='%s: approximating branch' % name)
+    elif n == 0:
+        rep.unk('R2b', name, 'no approximating branch found', loc=loc)
+    else:
+        rep.ok('R2b', name, '%d approximating / special-value branches agree with the function to 4 eps at the ends of the intervals they cover (%d evaluations in 60-digit arithmetic)' % (len(leaves), n),
+               loc=loc, sample={'fn': name, 'branches': len(leaves), 'evaluations': n})
 
 
 # ---------------------------------------------------------------- R3
